@@ -102,6 +102,7 @@ class NumberExpr(number_expr.NumberExpr, internal.RWValue[decimal.Decimal]):
         self._number_add_expr = add_expr
 
     def _iaddsub(self: 'NumberExpr', other: 'NumberExpr', op: Literal['+', '-']) -> 'NumberExpr':
+        internal.check_detachable([other])  # refuse before wrapping anything in parentheses
         mul_expr = _as_mul_expr(other)
         add_op = AddOp.from_raw_text(op)
         self.token_store.insert_after(self.last_token, [
@@ -136,7 +137,7 @@ class NumberExpr(number_expr.NumberExpr, internal.RWValue[decimal.Decimal]):
         ...
     @_operand_type_check
     def __add__(self, other: 'NumberExpr') -> 'NumberExpr':
-        return copy.deepcopy(self).__iadd__(other)
+        return copy.deepcopy(self).__iadd__(copy.deepcopy(other))
 
     @overload
     def __radd__(self, other: _AnyNumber) -> 'NumberExpr':  # type: ignore[misc]
@@ -166,7 +167,7 @@ class NumberExpr(number_expr.NumberExpr, internal.RWValue[decimal.Decimal]):
         ...
     @_operand_type_check
     def __sub__(self, other: 'NumberExpr') -> 'NumberExpr':
-        return copy.deepcopy(self).__isub__(other)
+        return copy.deepcopy(self).__isub__(copy.deepcopy(other))
 
     @overload
     def __rsub__(self, other: _AnyNumber) -> 'NumberExpr':  # type: ignore[misc]
@@ -179,6 +180,7 @@ class NumberExpr(number_expr.NumberExpr, internal.RWValue[decimal.Decimal]):
         return other - self
 
     def _imuldiv(self: 'NumberExpr', other: 'NumberExpr', op: Literal['*', '/']) -> 'NumberExpr':
+        internal.check_detachable([other])  # refuse before wrapping anything in parentheses
         self_mul_expr = _as_mul_expr(self)
         atom_expr = _as_atom_expr(other)
         mul_op = MulOp.from_raw_text(op)
@@ -215,7 +217,7 @@ class NumberExpr(number_expr.NumberExpr, internal.RWValue[decimal.Decimal]):
         ...
     @_operand_type_check
     def __mul__(self, other: 'NumberExpr') -> 'NumberExpr':
-        return copy.deepcopy(self).__imul__(other)
+        return copy.deepcopy(self).__imul__(copy.deepcopy(other))
 
     @overload
     def __rmul__(self, other: _AnyNumber) -> 'NumberExpr':  # type: ignore[misc]
@@ -245,7 +247,7 @@ class NumberExpr(number_expr.NumberExpr, internal.RWValue[decimal.Decimal]):
         ...
     @_operand_type_check
     def __truediv__(self, other: 'NumberExpr') -> 'NumberExpr':
-        return copy.deepcopy(self).__itruediv__(other)
+        return copy.deepcopy(self).__itruediv__(copy.deepcopy(other))
 
     @overload
     def __rtruediv__(self, other: _AnyNumber) -> 'NumberExpr':  # type: ignore[misc]
